@@ -46,8 +46,8 @@ let run_line (line : string) : unit =
   | _ :: _ :: ("init" | "req") :: _ -> !server_mode line
   | _ :: id :: rest ->
     let ops = match kv rest "ops" with Some o -> split_on '|' o | None -> [] in
-    let logs : lg array = Array.make 3 { l_recs = []; l_tree = [] } in
-    let prev : string proof option array = Array.make 3 None in
+    let logs : lg array = Array.make 4 { l_recs = []; l_tree = [] } in
+    let prev : string proof option array = Array.make 4 None in
     let head_of (l : lg) = head h2 l.l_tree in
     let proof_for l kind =
       if kind = "head" then head_of logs.(l)
